@@ -74,7 +74,7 @@ struct MemWorld : World {
         };
         if (c.out.kind == 1) {
             c.out.describe(d, sizeof d);
-            const char *kind = (c.out.signo == SIGSEGV || c.out.signo == SIGBUS) ? (c.out.slot < 0 ? "fault-gp" : (c.out.write ? "fault-write" : "fault-read")) : (c.out.signo == SIGFPE ? "sigfpe" : "sigill");
+            const char *kind = c.out.signo == SIGALRM ? "hang" : (c.out.signo == SIGSEGV || c.out.signo == SIGBUS) ? (c.out.slot < 0 ? "fault-gp" : (c.out.write ? "fault-write" : "fault-read")) : (c.out.signo == SIGFPE ? "sigfpe" : "sigill");
             viol(kind, "%s", d);
             return;
         }
